@@ -8,6 +8,9 @@ streams (one driver request = one whole layering; every directive is one word, f
   tab : the same with a random small option table carried in the request (`opt/...` words) built from the real option classes:
         ties the model for *every* table the theorems quantify over (several dictionary options per section, equal keys in
         different sections, booleans with and without a `!` flag, several option strings).
+  hist: histories on ONE mutable ConfigManager (live table and random tables): read(file), updateFromDict(parse_args(argv)) and
+        assignments config[s][k] = v in any order, with a read-back of every option (item and get) in between; the expected value at
+        every read-back is the spec's denotation of the steps so far, references resolved against the values of that moment.
   one : systematic sweep option x source (file1, file2, cli, file+cli) x value class over the live table (one option touched).
 """
 import os, io, sys, json, zlib, tempfile, shutil, contextlib, logging
@@ -34,7 +37,9 @@ LEVEL_TEXT = ('Lean 4 theorems over a line-by-line model of ConfigManager.read /
               'interp_no_percent, readBack_format, readBack_meets_oracle, spec_parser_sound, lookup_resolution (name resolution incl. the '
               'swallowed-KeyError quirk), updateFromDict_reads_own_occurrences (the argparse namespace is keyed by option.name: on tables with pairwise '
               'distinct dests and option strings every option reads back exactly its own occurrences; shared_dest_counterexample otherwise; '
-              'table_dests_distinct re-checked on the live table), get_is_getitem / get_default_on_keyerror (section.get), interp_terminates_acyclic (no RecursionError when references are ranked), and the type-appropriate-value '
+              'table_dests_distinct re-checked on the live table), get_is_getitem / get_default_on_keyerror (section.get), history_no_stale_readback / history_readback_current / '
+              'history_observation_count (layers and assignments in any order with read-backs in between: every observed state is the '
+              'denotation of the steps before it, so a read-back always uses the current values), interp_terminates_acyclic (no RecursionError when references are ranked), and the type-appropriate-value '
               'round trips int_written_is_read, float_written_is_read, words_written_are_read, dict_entry_written_is_read, file_sets_int, '
               'file_sets_bool (what str() prints / blank-joined words / k=v entries are read back as the same value); asIs_counterexample is the '
               'kernel-checked D3 witness for the pinned code. The live option table (all sections incl. html5 and mathjax-macros) is regenerated '
@@ -239,6 +244,47 @@ def line_of(tab, files, argv):
     for flag, args in argv:
         ws.append('/'.join(['occ', enc_s(flag)] + [enc_s(a) for a in args]))
     return ' '.join(ws)
+
+
+def hist_line(tab, steps):
+    """steps: ('read', file) | ('cli', argv) | ('set', sec, key, value) | ('obs',)"""
+    ws = []
+    for sec, key, ty, d, fl, nfl, dest in (tab or []):
+        ws.append('/'.join(['opt', enc_s(sec), enc_s(key), ty, enc_val(d), ','.join(map(enc_s, fl)), ','.join(map(enc_s, nfl)), enc_s(dest)]))
+    for st in steps:
+        if st[0] == 'read':
+            ws.append('file')
+            for sec, items in st[1]:
+                ws.append('sec/' + enc_s(sec))
+                for k, v in items:
+                    ws.append('kv/%s/%s' % (enc_s(k), enc_s(v)))
+        elif st[0] == 'cli':
+            ws.append('cli')
+            for flag, args in st[1]:
+                ws.append('/'.join(['occ', enc_s(flag)] + [enc_s(a) for a in args]))
+        elif st[0] == 'set':
+            ws.append('set/%s/%s/%s' % (enc_s(st[1]), enc_s(st[2]), enc_val(st[3])))
+        else:
+            ws.append('obs')
+    return ' '.join(ws)
+
+
+def parse_hist(line):
+    tab, steps = [], []
+    for w in line.split():
+        p = w.split('/')
+        if p[0] == 'opt':
+            tab.append((dec_s(p[1]), dec_s(p[2]), p[3], dec_val(p[4]), [dec_s(x) for x in p[5].split(',') if x],
+                        [dec_s(x) for x in p[6].split(',') if x], dec_s(p[7])))
+        elif p[0] == 'file': steps.append(('read', []))
+        elif p[0] == 'sec': steps[-1][1].append((dec_s(p[1]), []))
+        elif p[0] == 'kv': steps[-1][1][-1][1].append((dec_s(p[1]), dec_s(p[2])))
+        elif p[0] == 'cli': steps.append(('cli', []))
+        elif p[0] == 'occ': steps[-1][1].append((dec_s(p[1]), [dec_s(x) for x in p[2:]]))
+        elif p[0] == 'set': steps.append(('set', dec_s(p[1]), dec_s(p[2]), dec_val(p[3])))
+        elif p[0] == 'obs': steps.append(('obs',))
+        else: raise ValueError(w)
+    return tab or None, steps
 
 
 def dec_atom(w):
@@ -529,6 +575,71 @@ def sweep_cases(rng, tab):
                 yield [], [(r[5][0], []), (r[4][0], [])]
 
 
+def typed_value(rng, tab, ty):
+    """a Python value of the option's class, for `config[sec][key] = value`"""
+    if ty == 'str': return str_val(rng, tab, False)
+    if ty == 'int': return int(int_lit(rng))
+    if ty == 'flt': return float(flt_lit(rng))
+    if ty == 'bool': return rng.random() < 0.5
+    if ty == 'list': return [word(rng) for _ in range(rng.randint(0, 3))]
+    if ty == 'dint': return {word(rng).lower(): int(int_lit(rng)) for _ in range(rng.randint(0, 2))}
+    if ty == 'dflt': return {word(rng).lower(): float(flt_lit(rng)) for _ in range(rng.randint(0, 2))}
+    return {word(rng).lower(): word(rng) for _ in range(rng.randint(0, 2))}
+
+
+def change_step(rng, tab, row, value_text=None):
+    """one step that gives option `row` a (new) value: by a file, the command line or an assignment"""
+    sec, key, ty = row[0], row[1], row[2]
+    how = rng.randrange(3)
+    if how == 0:
+        v = value_text if value_text is not None else file_value(rng, tab, ty, False)
+        return ('read', [(sec, [(key, v)])])
+    if how == 1:
+        if value_text is not None and ty == 'str' and value_text and not value_text.startswith('-'):
+            return ('cli', [(rng.choice(row[4]), [value_text])])
+        if value_text is None:
+            return ('cli', cli_occs(rng, tab, row, False))
+    v = value_text if value_text is not None else typed_value(rng, tab, ty)
+    return ('set', sec, key, v)
+
+
+def gen_history(rng, tab):
+    """a history: layers and assignments in any order, with read-backs in between.  Half of the histories are built around
+    a reference: option A gets a value naming option B, everything is read back, B changes, everything is read back again."""
+    steps = []
+    if rng.random() < 0.5:
+        steps.append(('obs',))
+    strs = [r for r in tab if r[2] == 'str']
+    scal = [r for r in tab if r[2] in ('str', 'int', 'bool', 'flt')]
+    if strs and scal and rng.random() < 0.5:
+        a = rng.choice(strs)
+        b = rng.choice([r for r in scal if r is not a] or scal)
+        text = rng.choice(['%(' + b[1] + ')s', 'x%(' + b[1] + ')s', '%(' + b[1] + ')s-%%', 'p%%q-%(' + b[1] + ')s'])
+        if a is b:
+            text = 'a%%b'
+        steps.append(change_step(rng, tab, a, text))
+        steps.append(('obs',))
+        for _ in range(rng.randint(1, 2)):
+            steps.append(change_step(rng, tab, b))
+            if rng.random() < 0.8:
+                steps.append(('obs',))
+    for _ in range(rng.randint(0, 4)):
+        r = rng.random()
+        if r < 0.3:
+            files, argv = gen_layering(rng, tab, False)
+            for f in files[:2]:
+                steps.append(('read', f))
+                if rng.random() < 0.6: steps.append(('obs',))
+            if argv and rng.random() < 0.7:
+                steps.append(('cli', argv))
+        else:
+            steps.append(change_step(rng, tab, rng.choice(tab)))
+        if rng.random() < 0.6:
+            steps.append(('obs',))
+    steps.append(('obs',))
+    return steps
+
+
 def generate(ctx):
     rng = ctx.rng
     tab = table()
@@ -542,6 +653,11 @@ def generate(ctx):
         t = gen_table(rng)
         files, argv = gen_layering(rng, t, True)
         yield Case('tab', line_of(t, files, argv))
+    for _ in range(n // 3):
+        yield Case('hist', hist_line(None, gen_history(rng, tab)))
+    for _ in range(n):
+        t = gen_table(rng)
+        yield Case('hist', hist_line(t, gen_history(rng, t)))
 
 
 def corpus():
@@ -577,6 +693,10 @@ def corpus():
         # values with %(name)s / %% read through section.get() as well
         Case('cfg', L([[('files', [('filename', '%(theme)s-page'), ('input-encoding', '%(output-encoding)s')]), ('document', [('title', '100%% %(renderer)s'), ('lang-terms', '%(split-level)s.xml x')])]],
                       [('--theme', ['mytheme']), ('--output-encoding', ['latin-1'])]), None, 'corpus'),
+        # read back, change a referenced option by a later layer, read back again
+        Case('hist', hist_line(None, [('read', [('general', [('theme', '%(renderer)s-theme')]), ('files', [('directory', 'out-%(split-level)s-100%%')])]), ('obs',),
+                                      ('cli', [('--renderer', ['XHTML']), ('--split-level', ['4'])]), ('obs',),
+                                      ('set', 'general', 'renderer', 'Text'), ('obs',)]), None, 'corpus'),
         Case('cfg', L([], [('--split-level', ['x'])]), None, 'corpus'),
         Case('cfg', L([[('files', [('split-level', 'x')])]], []), None, 'corpus'),
         Case('cfg', L([], [('--link', ['a'])]), None, 'corpus'),
@@ -710,7 +830,47 @@ def run_main(tab, files, argv, seed=0):
         shutil.rmtree(d, ignore_errors=True)
 
 
+def run_history(tab, steps, seed=0):
+    """the same mutable ConfigManager through a history; returns the observations (and the first exception, if any)"""
+    from argparse import ArgumentParser
+    out = []
+    d = tempfile.mkdtemp(prefix='c16-')
+    try:
+        buf = io.StringIO()
+        with contextlib.redirect_stdout(buf), contextlib.redirect_stderr(buf):
+            try:
+                config = build_config(tab) if tab is not None else live_config()
+                parser = ArgumentParser('plasTeX')
+                config.registerArgparse(parser)
+                for n, st in enumerate(steps):
+                    if st[0] == 'read':
+                        p = write_files([st[1]], d, seed + n)[0]
+                        q = os.path.join(d, 'h%d.ini' % n)
+                        os.rename(p, q)
+                        config.read(q if (seed >> n) & 1 else [q])
+                    elif st[0] == 'cli':
+                        args = []
+                        for flag, a in st[1]:
+                            args += [flag] + list(a)
+                        config.updateFromDict(vars(parser.parse_args(args)))
+                    elif st[0] == 'set':
+                        import copy
+                        config[st[1]][st[2]] = copy.deepcopy(st[3])
+                    else:
+                        out.append(observe(config))
+            except BaseException as e:
+                if isinstance(e, KeyboardInterrupt) or type(e).__name__ == 'CaseTimeout':
+                    raise
+                out.append('err:' + canon_exc(e))
+    finally:
+        shutil.rmtree(d, ignore_errors=True)
+    return ';;'.join(out)
+
+
 def impl(case, aux):
+    if case.stream == 'hist':
+        tab, steps = parse_hist(case.line)
+        return run_history(tab, steps, zlib.crc32(case.line.encode()))
     tab, files, argv = parse_line(case.line)
     if 'defaults_obs' not in _env:
         try:
@@ -735,12 +895,20 @@ def judge(o):
     o.corr_ok = (o.impl == o.model)
     o.prop_ok = (o.spec == '-' or o.impl == o.spec)
     if not o.prop_ok:
-        o.note = first_diff(o.impl, o.spec, o.case.line)
+        if o.case.stream == 'hist':
+            a, b = o.impl.split(';;'), o.spec.split(';;')
+            k = next((i for i, (x, y) in enumerate(zip(a, b)) if x != y), None)
+            if k is None:
+                o.note = 'number of observations: %d, expected %d' % (len(a), len(b))
+            else:
+                o.note = 'read-back no. %d of the history: ' % (k + 1) + first_diff(a[k], b[k], o.case.line)
+        else:
+            o.note = first_diff(o.impl, o.spec, o.case.line)
 
 
 def first_diff(impl_s, spec_s, line):
     try:
-        tab, _, _ = parse_line(line)
+        tab = [r for r in (parse_hist(line)[0] or [])] if (' obs' in ' ' + line) else parse_line(line)[0]
         rows = tab or table()
         if not impl_s.startswith('ok:'):
             return 'implementation raised %s; expected values for every option' % impl_s
@@ -771,29 +939,54 @@ def show(w):
 
 # ---------------------------------------------------------------- shrink / search
 
-def shrink(ctx, o, evaluate):
-    """drop directives (file lines, occurrences, whole files) while the property still fails"""
-    best = o
-    improved = True
-    rounds = 0
-    while improved and rounds < 150:
-        improved = False
-        rounds += 1
-        words = best.case.line.split()
-        cands = []
+def _cleanup(words):
+    """drop structure words that introduce nothing (a section without lines, a file without sections, a command line
+    without occurrences)"""
+    changed = True
+    while changed:
+        changed = False
+        out = []
         for i, w in enumerate(words):
-            if w.startswith(('kv/', 'occ/')):
-                cands.append(words[:i] + words[i + 1:])
-            elif w.startswith('sec/') and (i + 1 == len(words) or not words[i + 1].startswith('kv/')):
-                cands.append(words[:i] + words[i + 1:])
-            elif w == 'file' and (i + 1 == len(words) or words[i + 1] == 'file' or words[i + 1].startswith('occ/')):
-                cands.append(words[:i] + words[i + 1:])
-        cases = [Case(o.case.stream, ' '.join(c), None, 'shrink') for c in cands]
-        for k in range(0, len(cases), 8):
-            bad = [r for r in evaluate(cases[k:k + 8]) if not r.prop_ok]
-            if bad:
-                best, improved = bad[0], True
+            nxt = words[i + 1] if i + 1 < len(words) else ''
+            if w.startswith('sec/') and not nxt.startswith('kv/'): changed = True; continue
+            if w == 'file' and not nxt.startswith('sec/'): changed = True; continue
+            if w == 'cli' and not nxt.startswith('occ/'): changed = True; continue
+            out.append(w)
+        words = out
+    return words
+
+
+def shrink(ctx, o, evaluate):
+    """delta debugging over the removable directives (file lines, occurrences, assignments, read-backs but the last):
+    halves first, then smaller chunks, while the property still fails"""
+    best = o
+    stream = o.case.stream
+
+    def removable(words):
+        return [i for i, w in enumerate(words) if w.startswith(('kv/', 'occ/', 'set/')) or (w == 'obs' and words.count('obs') > 1)]
+
+    words = best.case.line.split()
+    chunk = max(1, len(removable(words)) // 2)
+    budget = 400
+    while chunk >= 1 and budget > 0:
+        units = removable(words)
+        progressed = False
+        for start in range(0, len(units), chunk):
+            drop = set(units[start:start + chunk])
+            cand = _cleanup([w for i, w in enumerate(words) if i not in drop])
+            if cand == words or (stream == 'hist' and 'obs' not in cand):
+                continue
+            budget -= 1
+            r = evaluate([Case(stream, ' '.join(cand), None, 'shrink')])[0]
+            if not r.prop_ok:
+                best, words, progressed = r, cand, True
                 break
+            if budget <= 0:
+                break
+        if not progressed:
+            chunk //= 2
+        else:
+            chunk = max(1, min(chunk, len(removable(words)) // 2 or 1))
     return best
 
 
@@ -813,6 +1006,9 @@ def search(ctx, evaluate, corr_bad):
         t = gen_table(rng)
         f, a = gen_layering(rng, t, True)
         cases.append(Case('tab', line_of(t, f, a), None, 'search'))
+    for _ in range(3000):
+        t = gen_table(rng) if rng.random() < 0.7 else None
+        cases.append(Case('hist', hist_line(t, gen_history(rng, t or tab)), None, 'search'))
     bad = [o for o in evaluate(cases) if not o.prop_ok]
     if bad:
         o = shrink(ctx, bad[0], evaluate)
